@@ -26,6 +26,16 @@ class FileNameFormatError(InvalidDefinitionError):
         super().__init__(text=text, path=Path(path))
 
 
+def _parse_decimal(text: str) -> int:
+    """
+    Numbers in file names are plain decimal numerals. The built-in int() is more lenient than that: it also
+    accepts signs, surrounding blanks, digit separators and non-ASCII digits (e.g., "1_0", "+1", " 1", "١").
+    """
+    if not (text.isascii() and text.isdigit()):
+        raise ValueError(text)
+    return int(text)
+
+
 class PathInferenceError(UndefinedDataTypeError):
     """
     Raised when the namespace, type, fixed port ID, or version cannot be inferred from a file path.
@@ -195,7 +205,7 @@ class DSDLDefinition(ReadableDSDLFile):
         # Parsing the fixed port ID, if specified; None if not
         if str_fixed_port_id is not None:
             try:
-                self._fixed_port_id: int | None = int(str_fixed_port_id)
+                self._fixed_port_id: int | None = _parse_decimal(str_fixed_port_id)
             except ValueError:
                 raise FileNameFormatError(
                     "Not a valid fixed port-ID: %s. "
@@ -209,7 +219,9 @@ class DSDLDefinition(ReadableDSDLFile):
 
         # Parsing the version numbers
         try:
-            self._version = Version(major=int(str_major_version), minor=int(str_minor_version))
+            self._version = Version(
+                major=_parse_decimal(str_major_version), minor=_parse_decimal(str_minor_version)
+            )
         except ValueError:
             raise FileNameFormatError("Could not parse the version numbers", path=self._file_path) from None
 
